@@ -188,7 +188,8 @@ def write_class(v):
             d = re.sub(r"[0-9]+(/[0-9]+)?", "N", detail)
             for key, name in (("is not a radix-N literal", "not-a-literal"), ("fewer than min_significant_digits", "fewer-than-min"),
                               ("more than max_significant_digits", "more-than-max"), ("units of the last kept digit away", "value-off"),
-                              ("differs from the default output although no digit is cut", "value-off")):
+                              ("differs from the default output although no digit is cut", "value-off"),
+                              ("Truncate rounded up", "value-off")):
                 if key in d:
                     return "%s-digit-options-%s" % (kind, name)
     return None
